@@ -13,7 +13,7 @@ import (
 type MemAddr string
 
 func (a MemAddr) Network() string { return "mem" }
-func (a MemAddr) String() string   { return string(a) }
+func (a MemAddr) String() string  { return string(a) }
 
 // MemConn is a net.Conn over an in-memory reader and writer. Deadlines are
 // recorded, not enforced (nothing in memory ever blocks).
